@@ -162,6 +162,8 @@ def run(ctx):
         "contents below the abstract row (options, values, payloads, sizes) are seeded-random, not exhaustive; bodies up to "
         + ("8 MiB" if thorough else "256 KiB"),
     ]
+    from checks import reqfamily as _rf
+    _rf.override_stage(ctx, 'C03', ctx.tier == "thorough")
     ctx.write_evidence("exploration", {
         "evaluations": executed,
         "distinct_nontrivial": len(pairs),
